@@ -8,8 +8,12 @@ All theorems are about `HcipyVerif.Detector.run` / `pRun`, the model of
 `NoiselessDetector` / `NoisyDetector` (with the pending repairs D15, D29, D30, D31 applied), for
 **every** history of `integrate` / `readOut` operations, every detector shape and subsampling
 factor, over an arbitrary field `K`; the model is tied to the code by the C17 correspondence
-(harness/props/c17.py).  Images are values (lists of pixels); that the real objects do not alias
-is checked on the real objects by the harness after every operation.
+(harness/props/c17.py).  In `run` images are values (lists of pixels); aliasing — arrays as heap cells, the caller
+overwriting buffers it passed in and images it got back — is the subject of the reference-level model `rStep`
+(section "reference level" below: bridge to `run`, `caller_arrays_untouched`, a `Bad` variant that does alias), which
+the driver runs next to every noiseless history and the harness compares with the real objects (contents of every
+array the caller holds after every operation, `np.shares_memory`).  The grid an image is labelled with is modelled by
+`tStep` (`image_grid_is_detector_grid`).
 
 The only hypothesis that occurs, `Rep g st cur` ("the accumulator of `st` is the sum of the pending
 integrations `cur`"), holds for the freshly constructed detector with `cur = []` (`Rep.init`).
